@@ -22,7 +22,7 @@ CHECKS = {
         "groups": [
             {"name": "c19", "run": "^TestC19_", "shards": {"quick": 8, "thorough": 16},
              "timeout": {"quick": 600, "thorough": 3000},
-             "checks": ["c19-queue", "c19-e2e-latency"]},
+             "checks": ["c19-queue", "c19-e2e-latency", "c19-poll-requests"]},
         ],
     },
     "C09": {
